@@ -279,7 +279,7 @@ func printManifest(verif string) {
 		Reason string `json:"reason"`
 	}
 	var checks []map[string]any
-	var nas []na
+	nas := []na{}
 	var served []string
 	// property ids come from properties.jsonl (given and fixed)
 	data, _ := os.ReadFile(filepath.Join(verif, "properties.jsonl"))
